@@ -26,3 +26,25 @@ func VerifVarintRead(b []byte) (uint64, int, error) {
 	v, err := quicvarint.Read(r)
 	return v, len(b) - r.Len(), err
 }
+
+// VerifPRNG exposes the unexported seeded prng to the harness.
+type VerifPRNG struct{ p *prng }
+
+func VerifNewPRNG(seed *PRNGSeed) (*VerifPRNG, error) {
+	p, err := newPRNGWithSeed(seed)
+	return &VerifPRNG{p}, err
+}
+
+func VerifNewSaltedPRNG(seed *PRNGSeed, salt string) (*VerifPRNG, error) {
+	p, err := newPRNGWithSaltedSeed(seed, salt)
+	return &VerifPRNG{p}, err
+}
+
+func (v *VerifPRNG) Read(b []byte) (int, error)      { return v.p.Read(b) }
+func (v *VerifPRNG) Uint64() uint64                  { return v.p.Uint64() }
+func (v *VerifPRNG) Int63() int64                    { return v.p.Int63() }
+func (v *VerifPRNG) Intn(n int) int                  { return v.p.Intn(n) }
+func (v *VerifPRNG) Int63n(n int64) int64            { return v.p.Int63n(n) }
+func (v *VerifPRNG) Perm(n int) []int                { return v.p.Perm(n) }
+func (v *VerifPRNG) Range(min, max int) int          { return v.p.Range(min, max) }
+func (v *VerifPRNG) FlipWeightedCoin(w float64) bool { return v.p.FlipWeightedCoin(w) }
